@@ -520,7 +520,7 @@ static void run_case(const vh::Case &cs) {
         // init phase: every thread runs up to its first scheduling point (no trace entry)
         for (int i = 0; i < total; i++) give(i);
         size_t si = 0;
-        size_t limit = sched.size() + 4000;
+        size_t limit = sched.size() + 200000;   // never reached: every run is finite (PoolTerm.v)
         for (size_t step = 0; step < limit; step++) {
             std::vector<int> en;
             for (int i = 0; i < total; i++) {
